@@ -186,8 +186,13 @@ class PathCore:
         if z3.is_false(f):
             raise Halt()
         self.pc.append(f)
-        if not has_quantifier(f):
-            self.feas.add(f)
+        stack = [f]
+        while stack:  # quantifier-free conjuncts also feed the feasibility solver
+            g = stack.pop()
+            if z3.is_and(g):
+                stack.extend(g.children())
+            elif not has_quantifier(g):
+                self.feas.add(g)
 
     def feasible(self, cond) -> bool:
         self.solver_calls += 1
